@@ -10,6 +10,7 @@ func init() {
 	vHarnesses["H_C03_cut"] = H_C03_cut
 	vHarnesses["H_C04_catch"] = H_C04_catch
 	vHarnesses["H_C09_history"] = H_C09_history
+	vHarnesses["H_C11_allsol"] = H_C11_allsol
 	vHarnesses["H_C10_store"] = H_C10_store
 	vHarnesses["H_C10_text"] = H_C10_text
 	vHarnesses["H_C10_bootstrap"] = H_C10_bootstrap
@@ -61,4 +62,10 @@ func H_C10_text(inst int) {
 func H_C10_bootstrap(inst int) {
 	i := newFull()
 	engine.VH_C10_bootstrap(&i.VM, bootstrap)
+}
+
+// H_C11_allsol: findall/bagof/setof skeletons vs the reference (group order unconstrained).
+func H_C11_allsol(inst int) {
+	i := newFull()
+	engine.VH_C11(&i.VM, inst)
 }
